@@ -13,6 +13,10 @@ pub struct Oracle {
     /// (fn id, a bits, b bits) -> result bits
     pub table: BTreeMap<(u64, u32, u32), u32>,
     pub tainted: bool,
+    /// a zero reached rand / mix: its sign (which min / max of two zeros do not fix) feeds the hash
+    pub zero_hashed: bool,
+    /// evaluate abs as the gradient / interval evaluators do: `if v < 0 { -v } else { v }` (keeps -0.0)
+    pub abs_keeps_neg_zero: bool,
 }
 impl Oracle {
     pub fn fmt(&self) -> String {
@@ -29,13 +33,13 @@ impl Oracle {
     pub fn un(&mut self, u: UnaryOpcode, a: f32) -> f32 {
         use UnaryOpcode::*;
         match u {
-            Neg => -a, Abs => a.abs(), Recip => 1.0 / a, Sqrt => a.sqrt(), Square => a * a,
+            Neg => -a, Abs => if self.abs_keeps_neg_zero { if a < 0.0 { -a } else { a } } else { a.abs() }, Recip => 1.0 / a, Sqrt => a.sqrt(), Square => a * a,
             Floor => a.floor(), Ceil => a.ceil(), Round => a.round(),
             Sin => self.log1(0, a, a.sin()), Cos => self.log1(1, a, a.cos()), Tan => self.log1(2, a, a.tan()),
             Asin => self.log1(3, a, a.asin()), Acos => self.log1(4, a, a.acos()), Atan => self.log1(5, a, a.atan()),
             Exp => self.log1(6, a, a.exp()), Ln => self.log1(7, a, a.ln()),
             Not => if a == 0.0 { 1.0 } else { 0.0 },
-            Rand => { if a.is_nan() { self.tainted = true; } a.rand() }
+            Rand => { if a.is_nan() { self.tainted = true; } if a == 0.0 { self.zero_hashed = true; } a.rand() }
         }
     }
     pub fn bin(&mut self, b: BinaryOpcode, x: f32, y: f32) -> f32 {
@@ -49,7 +53,7 @@ impl Oracle {
             Mod => self.log2(9, x, y, x.rem_euclid(y)),
             And => if x == 0.0 { x } else { y },
             Or => if x != 0.0 { x } else { y },
-            Mix => { if x.is_nan() || y.is_nan() { self.tainted = true; }
+            Mix => { if x.is_nan() || y.is_nan() { self.tainted = true; } if x == 0.0 || y == 0.0 { self.zero_hashed = true; }
                      let r = x.mix(y); if r.is_nan() { /* result payload is arbitrary */ } r }
         }
     }
